@@ -73,18 +73,11 @@ def lift(c, hx):
 
 
 def lift_w(c, hx):
-    """lift with every constant and identifier width visible (str() hides the width of constants), then evaluate the list on a fresh machine"""
+    """lift with every constant and identifier width visible (str() hides the width of constants)"""
     from .. import irsem
     i = c.ia32.x86mnemo.dis(bytes.fromhex(hx))
     lst = c.eh.get_instr_expr(i, c.X.ExprInt32(len(hx) // 2), [])
-    out = [repr(irsem.to_neutral(e)) for e in lst]
-    m = c.eh.x86_machine()
-    try:
-        m.eval_instr(lst)
-        out.append(dump(m))
-    except Exception as ex:
-        out.append('EVAL-EXC:%s' % type(ex).__name__)
-    return out
+    return [repr(irsem.to_neutral(e)) for e in lst]
 
 
 def shared_expr(c, key):
@@ -852,7 +845,7 @@ def run(tier, seed):
     part.counters['histories'] = len(fps) - 1
     part.counters['probes_per_history'] = len([1 for n, f in CALLS if n not in NOT_PROBES])
     depth = 2 if tier == 'quick' else 3
-    rule = ('history exploration: alphabet of %d API calls, of which ' + str(NARROW) + ' in the histories of length >= 2 and the rest (width-aware lifts of ' + str(len(WIDE_LIFTS)) + ' instructions under their prefix variants, ' + str(len(WIDE_ASM) + len(WIDE_ATT)) + ' assembler lines that are bare prefixes, fragments or rejected input) as histories of length 1 probed by the whole alphabet (dis, asm, asm_att incl. raising ones, lift, expr_simp / eval_expr on expressions built on '
+    rule = ('history exploration: alphabet of %d API calls, of which NARROW_N in the histories of length >= 2 and the rest (width-aware lifts of WIDE_L instructions under their prefix variants, WIDE_A assembler lines that are bare prefixes, fragments or rejected input) as histories of length 1 probed by the whole alphabet (dis, asm, asm_att incl. raising ones, lift, expr_simp / eval_expr on expressions built on '
             'the module-level register singletons and shared between calls, eval on machines with bound/absent registers and memory, emulation, '
             'eval_instr, instruction objects held across calls); ALL histories of length 1..%d (thorough: length 3 over the alphabet without 15 near-duplicate calls), each run in a forked child of a pristine image; after the history each of the %d probes runs '
             'in its own grand-child and must equal its pristine result; a call repeated within a history must repeat its result. states = distinct '
@@ -860,6 +853,7 @@ def run(tier, seed):
             'depth = %s. assembler call pairs: every ordered pair of a 269-line alphabet in which differently treated mnemonics share operand text, second call against its pristine result. input immutability (incl. the address object handed to the lifter): %d expression trees x 6 APIs, instruction objects, machine states. cache configurations: %s, each in a '
             'fresh process with its own TMPDIR, compared on %d corpus lines and 3 invalid lines' % (
                 len(CALLS), depth, len([1 for n, f in CALLS if n not in NOT_PROBES]), new_at, pi.n, cache_configs(), len(CORPUS_ALL)))
+    rule = rule.replace('NARROW_N', str(NARROW)).replace('WIDE_L', str(len(WIDE_LIFTS))).replace('WIDE_A', str(len(WIDE_ASM) + len(WIDE_ATT)))
     return core.finish('C12', tier, seed, t0, part, rule, level='model_checking', exhaustive=True,
                        extra={'new_fingerprints_per_depth': new_at, 'fingerprint_set_closed': new_at.get(depth, 0) == 0, 'depth': depth},
                        assumptions=['fork gives each history a pristine copy of the library image', 'the fingerprint covers x86mndb, x86_afs, flags on ia32_sem expressions and sys.path only'])
